@@ -129,6 +129,15 @@ func C17(c *core.Ctx) {
 			opts = append(opts, cli.WithOsEnv, cli.WithEnv(env))
 		}
 		opts = append(opts, cli.WithEnvFiles(), cli.WithDotEnv)
+		// the name rules do not depend on the model being normalised or checked for consistency
+		switch n % 5 {
+		case 1:
+			opts = append(opts, cli.WithNormalization(false))
+			desc = append(desc, "(without normalisation)")
+		case 3:
+			opts = append(opts, cli.WithConsistency(false), cli.WithResolvedPaths(false))
+			desc = append(desc, "(without consistency check and path resolution)")
+		}
 		key := fmt.Sprintf("explicit=%v cpn[ex=%v os=%v dotenv=%v] files=%v dir=%s", explicit, ex, osv, de, desc, dirBase)
 		c.Eval(key, explicit.Set || ex.Set || osv.Set || de.Set || len(files) > 1)
 		got, gotErr := func() (name string, err error) {
